@@ -2839,8 +2839,10 @@ namespace awkward {
   template <typename T, bool ISOPTION>
   bool
   IndexedArrayOf<T, ISOPTION>::is_unique() const {
+    // positions in the index as the kernels see it (index_.data() already
+    // starts at the index's own offset)
     Index64 start(1);
-    start.setitem_at_nowrap(0, index().offset());
+    start.setitem_at_nowrap(0, 0);
     Index64 stop(1);
     stop.setitem_at_nowrap(0, index().length());
     return is_subrange_equal(start, stop);
